@@ -107,7 +107,6 @@ func H_C06_pipe(w1, w2, b1 int) {
 	vObs("r1", r1)
 	vObs("e1", int(e1))
 	if e1 != 0 {
-		vReach("first-rejected")
 		return
 	}
 	vAssert("first-ends-at-its-length", r1 == len(m1))
